@@ -61,12 +61,48 @@ class _T:
         return self
 
 
-def registry_run(repo, modname, cls_name, method, registry, ident='T1'):
-    """Interpret get_db / thread_exit of a table class on a given registry content.  -> (registry afterwards, returned value)"""
+def synthetic_master():
+    """a table with every mutable level the real MASTER_DB has: category -> name -> [versions, failures, warnings, infos] (rows of 1..4 lists)"""
+    return {'kex': {'k1': [['1.0'], ['F1'], ['W1'], ['I1']], 'k2': [['2.0']], 'k3': [['3.0'], [], ['W3']]},
+            'key': {'h1': [['1.0'], ['F1']]},
+            'enc': {'e1': [['1.0'], [], ['W1']], 'e2': [['2.0']]},
+            'mac': {'m1': [['1.0']]}}
+
+
+def shared_parts(copy_, master, path=''):
+    """paths of the mutable containers of `master` that `copy_` still shares (same object), or where the copy's content differs"""
+    out = []
+    if copy_ is master and isinstance(master, (dict, list, set)):
+        out.append(path or '<the table itself>')
+        return out
+    if type(copy_) is not type(master):
+        out.append('%s: content differs (%r)' % (path or '<table>', type(copy_).__name__))
+        return out
+    if isinstance(master, dict):
+        if list(copy_) != list(master):
+            out.append('%s: keys differ' % (path or '<table>'))
+            return out
+        for k in master:
+            out.extend(shared_parts(copy_[k], master[k], '%s[%r]' % (path, k)))
+    elif isinstance(master, list):
+        if len(copy_) != len(master):
+            out.append('%s: length differs' % (path or '<table>'))
+            return out
+        for i, v in enumerate(master):
+            out.extend(shared_parts(copy_[i], v, '%s[%d]' % (path, i)))
+    elif copy_ != master:
+        out.append('%s: value differs' % path)
+    return out
+
+
+def registry_run(repo, modname, cls_name, method, registry, ident='T1', master=None):
+    """Interpret get_db / thread_exit of a table class on a given registry content.  -> (registry afterwards, returned value, master table)"""
+    import copy as _copy
     from sa.listinterp import Interp
     from sa.abseval import Unknown
     f = repo.func(modname, '%s.%s' % (cls_name, method))
-    master = _T('<MASTER_DB>')
+    if master is None:
+        master = synthetic_master()
     reg = dict(registry)
     env = {'%s.DB_PER_THREAD' % cls_name: reg, 'cls.DB_PER_THREAD': reg, '%s.MASTER_DB' % cls_name: master, 'cls.MASTER_DB': master}
 
@@ -74,8 +110,10 @@ def registry_run(repo, modname, cls_name, method, registry, ident='T1'):
         t = unparse(call.func)
         if t in ('threading.get_ident', 'get_ident') and not call.args:
             return (True, ident)
-        if t in ('copy.deepcopy', 'deepcopy') and len(call.args) == 1:
-            return (True, ('deepcopy', interp.value(call.args[0], e)))
+        if t in ('copy.deepcopy', 'deepcopy', 'copy.copy') and len(call.args) == 1:
+            v = interp.value(call.args[0], e)
+            if isinstance(v, (dict, list)):
+                return (True, _copy.deepcopy(v) if t != 'copy.copy' else _copy.copy(v))       # the standard library's copy, applied to the model's own synthetic table
         return None
     try:
         finals = Interp(call_hook=hook, try_normal_path=True).run(f.body, env)
@@ -87,9 +125,8 @@ def registry_run(repo, modname, cls_name, method, registry, ident='T1'):
 
 
 def check_registry(repo, rep, rule, why_shared):
-    """The per-thread registry, by interpretation: the first get_db() of a thread registers a deep copy of MASTER_DB under the thread's identity and returns
+    """The per-thread registry, by interpretation: the first get_db() of a thread registers a private copy of MASTER_DB under the thread's identity and returns
     that very object; later calls return it again without copying; another thread gets its own entry; thread_exit() removes the caller's entry only."""
-    n = 0
     for cls_name, modname in (('SSH2_KexDB', 'ssh2_kexdb'), ('SSH1_KexDB', 'ssh1_kexdb')):
         gd = repo.func(modname, cls_name + '.get_db')
         te = repo.func(modname, cls_name + '.thread_exit')
@@ -97,45 +134,41 @@ def check_registry(repo, rep, rule, why_shared):
         reg, ret, master = registry_run(repo, modname, cls_name, 'get_db', {})
         ok = list(reg) == ['T1'] and reg['T1'] is ret
         rep.check(rule, '%s.get_db: first call registers one table under threading.get_ident() and returns it' % cls_name, ok, gd,
-                  '%s.get_db on an empty registry leaves %r and returns %r: the table a scan edits is not the one registered for its thread (%s)' % (cls_name, reg, ret, why_shared), stmt='%s registry: first call' % cls_name)
-        deep = ret == ('deepcopy', master)
+                  '%s.get_db on an empty registry leaves %s and returns %s: the table a scan edits is not the one registered for its thread (%s)' % (cls_name, _brief(reg), _brief(ret), why_shared), stmt='%s registry: first call' % cls_name)
         s1, s2 = _T('<table of T1>'), _T('<table of T2>')
-        reg, ret, _m = registry_run(repo, modname, cls_name, 'get_db', {'T1': s1})
-        rep.check(rule, '%s.get_db: later calls of the same thread return the registered table' % cls_name, reg == {'T1': s1} and ret is s1, gd,
-                  '%s.get_db with a table already registered leaves %r and returns %r: measured notes written earlier in the scan are lost or another table is rated' % (cls_name, reg, ret), stmt='%s registry: second call' % cls_name)
-        reg, ret, _m = registry_run(repo, modname, cls_name, 'get_db', {'T1': s1}, ident='T2')
-        rep.check(rule, '%s.get_db: another thread gets its own entry' % cls_name, list(reg) == ['T1', 'T2'] and reg['T1'] is s1 and ret is reg['T2'] and ret is not s1, gd,
-                  '%s.get_db called by a second thread leaves %r and returns %r: two scans share a table (%s)' % (cls_name, reg, ret, why_shared), stmt='%s registry: second thread' % cls_name)
-        reg, ret, _m = registry_run(repo, modname, cls_name, 'thread_exit', {'T1': s1, 'T2': s2})
-        rep.check(rule, '%s.thread_exit removes the calling thread\'s table only' % cls_name, reg == {'T2': s2}, te, '%s.thread_exit leaves %r of {T1, T2}: a re-used thread identity inherits the notes of a finished scan, or another scan loses its table' % (cls_name, reg), stmt='%s registry: exit' % cls_name)
-        reg, ret, _m = registry_run(repo, modname, cls_name, 'thread_exit', {'T2': s2})
-        rep.check(rule, '%s.thread_exit without a registered table is a no-op' % cls_name, reg == {'T2': s2}, te, '%s.thread_exit without an own table leaves %r' % (cls_name, reg), stmt='%s registry: exit without table' % cls_name)
-        n += 5
-        yield cls_name, modname, gd, deep
+        reg2, ret2, _m = registry_run(repo, modname, cls_name, 'get_db', {'T1': s1})
+        rep.check(rule, '%s.get_db: later calls of the same thread return the registered table' % cls_name, reg2 == {'T1': s1} and ret2 is s1, gd,
+                  '%s.get_db with a table already registered leaves %s and returns %s: measured notes written earlier in the scan are lost or another table is rated' % (cls_name, _brief(reg2), _brief(ret2)), stmt='%s registry: second call' % cls_name)
+        reg2, ret2, _m = registry_run(repo, modname, cls_name, 'get_db', {'T1': s1}, ident='T2')
+        rep.check(rule, '%s.get_db: another thread gets its own entry' % cls_name, list(reg2) == ['T1', 'T2'] and reg2['T1'] is s1 and ret2 is reg2['T2'] and ret2 is not s1, gd,
+                  '%s.get_db called by a second thread leaves %s and returns %s: two scans share a table (%s)' % (cls_name, _brief(reg2), _brief(ret2), why_shared), stmt='%s registry: second thread' % cls_name)
+        reg2, ret2, _m = registry_run(repo, modname, cls_name, 'thread_exit', {'T1': s1, 'T2': s2})
+        rep.check(rule, '%s.thread_exit removes the calling thread\'s table only' % cls_name, reg2 == {'T2': s2}, te, '%s.thread_exit leaves %s of {T1, T2}: a re-used thread identity inherits the notes of a finished scan, or another scan loses its table' % (cls_name, _brief(reg2)), stmt='%s registry: exit' % cls_name)
+        reg2, ret2, _m = registry_run(repo, modname, cls_name, 'thread_exit', {'T2': s2})
+        rep.check(rule, '%s.thread_exit without a registered table is a no-op' % cls_name, reg2 == {'T2': s2}, te, '%s.thread_exit without an own table leaves %s' % (cls_name, _brief(reg2)), stmt='%s registry: exit without table' % cls_name)
+        yield cls_name, modname, gd, ret, master
+
+
+def _brief(v):
+    r = repr(v)
+    return r if len(r) <= 90 else r[:87] + '...'
 
 
 def check_private_copy(repo, rep, rule, ce, why):
-    """get_db of both tables registers a value whose fresh depth covers every mutable level of MASTER_DB."""
+    """get_db of both tables registers a table equal to MASTER_DB that shares no mutable container with it, at any level (object identity in the
+    interpreted run on a synthetic table that has every mutable level of the real one)."""
     n = 0
-    for cls_name, modname, gd, deep in check_registry(repo, rep, rule, why):
+    for cls_name, modname, gd, ret, master in check_registry(repo, rep, rule, why):
         need = mutable_depth(ce.lookup(modname, cls_name + '.MASTER_DB'))
-        if deep:
-            n += 1
-            rep.ob(rule, '%s.get_db hands out copy.deepcopy(MASTER_DB): fresh on all %d mutable levels' % (cls_name, need), True, sample={'rule': rule, 'table': cls_name, 'mutable_levels': need, 'fresh_levels': 'all'})
-            continue
-        stores = [s for s in walk_no_nested(gd) if isinstance(s, ast.Assign) and isinstance(s.targets[0], ast.Subscript) and unparse(s.targets[0].value) == cls_name + '.DB_PER_THREAD']
-        if len(stores) != 1:
-            raise AnalysisError('%s.get_db: expected one store into the per-thread registry, found %d' % (cls_name, len(stores)))
-        val = stores[0].value
-        # a local assigned once may carry the copy
-        if isinstance(val, ast.Name):
-            defs = [d for d in walk_no_nested(gd) if isinstance(d, ast.Assign) and any(isinstance(t, ast.Name) and t.id == val.id for t in d.targets)]
-            if len(defs) == 1:
-                val = defs[0].value
-        src_ok = (cls_name + '.MASTER_DB') in unparse(val) or 'cls.MASTER_DB' in unparse(val)
-        got = fresh_depth(val)
+        if need > mutable_depth(master):
+            raise AnalysisError('%s.MASTER_DB has %d mutable container levels, the synthetic table of the model only %d' % (cls_name, need, mutable_depth(master)))
+        bad = shared_parts(ret, master) if isinstance(ret, dict) else ['<no table returned>']
+        if master != synthetic_master():
+            bad.append(': get_db edits MASTER_DB itself')
         n += 1
-        rep.check(rule, '%s.get_db hands out a copy of MASTER_DB that is fresh on all %d mutable levels' % (cls_name, need), src_ok and got >= need, stores[0],
-                  '%s.get_db registers %s, which is fresh on %s of the %d mutable container levels of MASTER_DB: the inner note lists stay shared with the master table, so %s' % (cls_name, unparse(val)[:110], got if got < INF else 'all', need, why),
-                  stmt='%s per-thread copy depth' % cls_name, sample={'rule': rule, 'table': cls_name, 'mutable_levels': need, 'fresh_levels': 'all' if got >= INF else got})
+        levels = sorted({p.count('[') for p in bad if ':' not in p})
+        rep.check(rule, '%s.get_db hands out a copy of MASTER_DB that shares no mutable container with it (all %d levels)' % (cls_name, need), not bad, gd,
+                  '%s.get_db registers a table that still shares %d container(s) with MASTER_DB (e.g. %s): %s' % (cls_name, len(bad), ', '.join('MASTER_DB' + b for b in bad[:3]),
+                                                                                                                 'the inner note lists stay shared with the master table, so ' + why if levels and min(levels) >= 2 else why),
+                  stmt='%s per-thread copy depth' % cls_name, sample={'rule': rule, 'table': cls_name, 'mutable_levels': need, 'shared_containers': len(bad)})
     return n
